@@ -1,4 +1,4 @@
 SPECIFICATION TSpec
-INVARIANTS C07Dbus C07Exec C07Stack C07Left C02Same
+INVARIANTS C07Dbus C07Exec C07Stack C07Left C02Same C05Blocks
 POSTCONDITION Accepted
 CHECK_DEADLOCK FALSE
